@@ -166,7 +166,8 @@ def run(ctx, report):
     for label, text in docs:
         base = run_impl(text)
         variants = []
-        for d2 in (TRIPLES if thorough else rng.sample(TRIPLES, 3)):
+        # quick tier: the control-character triple (FS / GS: characters Python's str methods count as blanks) always, two others by chance
+        for d2 in (TRIPLES if thorough else [TRIPLES[3]] + rng.sample(TRIPLES[:3] + TRIPLES[4:], 2)):
             brk = rng.choice(BREAKS)
             t2 = reencode(text, d2, brk)
             if t2 is None or t2 == text:
